@@ -131,6 +131,8 @@ Targets == {
   <<I2("Mul", RA, RB), I1("CanonBits", RT(0))>>,
   <<I2("Add", RA, RB), I1("CanonBits", RT(0))>>,
   <<I2("Sub", RA, RA), I2("IsZeroSel", RT(0), ROne)>>,
+  <<I2("Sub", RA, RB), I2("IsZeroSel", RT(0), ROne)>>,
+  <<I2("Sub", RB, RA), I2("IsZeroSel", RT(0), RA)>>,
   <<I2("Add", RA, RB), I2("IsZeroSel", RT(0), RB)>>,
   <<I2("Mul", RA, RB), I2("IsZeroSel", RT(0), ROne)>>,
   <<I1("AddChain", RA), I2("IsZeroSel", RT(0), RB)>>,
